@@ -259,6 +259,9 @@ func checkInc(c Case, ev *evid.Collector, runs int) (*evid.Violation, string) {
 	if c.Engine == "copy" {
 		return checkCopy(c, ev, runs)
 	}
+	if c.Engine == "layout" {
+		return checkLayout(c, ev)
+	}
 	c.normalise()
 	kb, _ := json.Marshal(c)
 	key := string(kb)
@@ -435,6 +438,60 @@ func checkCopy(c Case, ev *evid.Collector, runs int) (*evid.Violation, string) {
 	ev.Case(nt, string(kb), ls...)
 	ev.Sample(c)
 	return viol, ""
+}
+
+// ---------------------------------------------------------------- engine 5: the write throttle of an OCI layout
+
+func genLayout(t *rapid.T) Case {
+	lc := &LayoutCase{Limit: rapid.SampledFrom([]int{1, 1, 2, 2, 3, 0}).Draw(t, "limit"), GC: rapid.Bool().Draw(t, "gc"), Paths: rapid.IntRange(1, 2).Draw(t, "paths")}
+	n := rapid.IntRange(2, 6).Draw(t, "writers")
+	for i := 0; i < n; i++ {
+		lc.Writers = append(lc.Writers, rapid.IntRange(0, lc.Paths-1).Draw(t, "wpath"))
+	}
+	na := rapid.IntRange(2, 16).Draw(t, "nacts")
+	for i := 0; i < na; i++ {
+		k := rapid.SampledFrom([]string{"start", "start", "start", "close", "close", "finish", "finish", "cancel"}).Draw(t, "akind")
+		a := LayoutAct{Kind: k}
+		if k == "close" {
+			a.W = rapid.IntRange(0, lc.Paths-1).Draw(t, "apath")
+		} else {
+			a.W = rapid.IntRange(0, n-1).Draw(t, "aw")
+		}
+		lc.Script = append(lc.Script, a)
+	}
+	return Case{Engine: "layout", Layout: lc}
+}
+
+func checkLayout(c Case, ev *evid.Collector) (*evid.Violation, string) {
+	if c.Layout == nil {
+		c.Layout = &LayoutCase{}
+	}
+	kb, _ := json.Marshal(c)
+	v, inc, events := runLayout(*c.Layout)
+	if inc != "" {
+		return v, inc
+	}
+	labels := []string{"engine:layout", fmt.Sprintf("layout:limit-%d", c.Layout.Limit)}
+	for k := range events {
+		labels = append(labels, k)
+	}
+	sort.Strings(labels)
+	// non-trivial: a Close arrived while a writer held the path, or the path's throttle was full at some moment
+	nt := events["layout:close-while-a-writer-holds-the-path"] || events["layout:path-throttle-was-full"]
+	ev.Case(nt, string(kb), labels...)
+	ev.Sample(c)
+	return v, ""
+}
+
+func TestVerifLayout(t *testing.T) {
+	ev := evid.For(prop)
+	rapid.Check(t, func(rt *rapid.T) {
+		c := genLayout(rt)
+		v := evid.Guard(func() *evid.Violation { return check(c, ev, 1) })
+		if ev.Report(v, c) {
+			rt.Fatalf("%v", v)
+		}
+	})
 }
 
 func genCopy(t *rapid.T) Case {
